@@ -24,7 +24,8 @@ RULE = ("one run = one of three arms on four replicas (vlevel 0-3); distinct = d
         "outcome vector) tuples x state digest")
 PROBES = ["arm_history", "arm_corrupt", "arm_assign", "corrupt_accepted_somewhere", "corrupt_rejected_somewhere",
           "invalid_assignment", "valid_assignment", "surfaced_at_write", "surfaced_at_validate", "repaired",
-          "repeated_header_tag", "custom_taglike"]
+          "repeated_header_tag", "custom_taglike",
+          "header_add", "header_add_multi"]
 
 ASSIGN = {
     # datatype: (valid python values, invalid python values)
@@ -147,6 +148,13 @@ def gen(streams, tier, i):
         ops.append({"op": "assign", "li": ar.randrange(1000), "tag": ar.choice(["qd", "qe"]), "dtype": None,
                     "value": ar.choice(pool), "valid": valid, "connected": ar.random() < 0.6,
                     "reads": ar.randint(0, 2), "repair": 1})
+    for _ in range(ar.randint(0, 2)):
+        # header.add(): the multi-value aware setter, on a tag which has 0-3 values already
+        dt = ar.choice(["i", "f", "Z", "A", "J"])
+        valid = ar.random() < 0.4
+        pool = [v for v in ASSIGN[dt][0 if valid else 1] if not isinstance(v, (list, dict)) or dt == "J"]
+        ops.append({"op": "hdradd", "dtype": dt, "nprev": ar.randint(0, 3), "prev": ASSIGN[dt][0][0],
+                    "explicit": ar.random() < 0.5, "value": ar.choice(pool), "valid": valid})
     for _ in range(ar.randint(1, 5)):
         dt = ar.choice(sorted(ASSIGN))
         valid = ar.random() < 0.4
@@ -285,6 +293,9 @@ def run_assign(scn, st):
         if op["op"] == "posassign":
             posassign(reps, op, version, st)
             continue
+        if op["op"] == "hdradd":
+            hdradd(op, st)
+            continue
         st.count("op.assign")
         x = pyval(op["value"])
         tag, dt = op["tag"], op["dtype"]
@@ -371,6 +382,49 @@ def run_assign(scn, st):
             if texts[lvl] != texts[0]:
                 raise core.Violation("levels-diverge-text", "after assignment %d the replicas differ (level %d)" % (n, lvl),
                                      level=lvl, op="assign")
+
+
+def hdradd(op, st):
+    """header.add(tag, value[, datatype]) on a stand-alone header whose tag holds 0-3 values already"""
+    st.count("op.hdradd")
+    dt, x = op["dtype"], pyval(op["value"])
+    for lvl in range(4):
+        oo = core.call(gfapy.Line, "H", vlevel=lvl)
+        if not oo.ok:
+            return
+        h = oo.value
+        for _ in range(op["nprev"]):
+            if not core.call(h.add, "hq", pyval(op["prev"]), dt).ok:
+                return
+        a = core.call(h.add, "hq", x, dt) if (op["explicit"] or op["nprev"] == 0) else core.call(h.add, "hq", x)
+        st.count("oracle.surfacing")
+        st.count("probe.header_add_multi" if op["nprev"] >= 2 else "probe.header_add")
+        st.state(digest(["hdradd", dt, repr(x), lvl, a.ok, op["nprev"], op["explicit"]]))
+        what = "level %d: header.add('hq', %r%s) after %d value(s) of datatype %s" % (
+            lvl, x, ", %r" % dt if op["explicit"] else "", op["nprev"], dt)
+        if op["valid"]:
+            if not a.ok:
+                raise core.Violation("valid-assignment-rejected", "%s raised %s: %s" % (what, a.excname, str(a.exc)[:200]),
+                                     dtype=dt, level=lvl, exc=a.excname, frame=a.frame)
+            v = core.call(h.validate)
+            s_ = core.call(str, h)
+            if not (v.ok and s_.ok) or "# INVALID" in (s_.value or ""):
+                raise core.Violation("valid-assignment-reported", "%s: reported invalid afterwards" % what, dtype=dt, level=lvl)
+            continue
+        if lvl == 3 and a.ok:
+            raise core.Violation("invalid-not-reported-at-assignment", "%s was accepted" % what, dtype=dt, level=3)
+        if not a.ok:
+            continue
+        if lvl == 2:
+            f = core.call(h.field_to_s, "hq", True)
+            s_ = core.call(str, h)
+            if f.ok and s_.ok and "# INVALID" not in s_.value:
+                raise core.Violation("invalid-not-reported-at-write", "%s: written as %r" % (what, s_.value), dtype=dt, level=2)
+        if lvl >= 1 or not isinstance(x, str):
+            v = core.call(h.validate)
+            if v.ok:
+                raise core.Violation("invalid-not-reported-by-validate", "%s: header.validate() passes" % what, dtype=dt,
+                                     level=lvl)
 
 
 def posassign(reps, op, version, st):
